@@ -307,6 +307,10 @@ func buildAdv(knobs []Knob) advTok {
 		ex = exprW(one, opUn(7))
 	case "binary-code-99":
 		ex = exprW(one, one, opBin(99))
+	case "unary-code-neg": // the kind is an int32 enum: 2^64-1 on the wire decodes to -1
+		ex = exprW(one, opUn(^uint64(0)))
+	case "binary-code-neg":
+		ex = exprW(one, one, opBin(^uint64(0)))
 	case "op-empty-oneof":
 		ex = exprW([]byte{})
 	case "unknown-variable":
